@@ -166,6 +166,9 @@ func twParse(path string, frameSize int, want map[string]string) twFile {
 			return bad(fmt.Sprintf("header field %c = %q, want %q", code, hf[code], w))
 		}
 	}
+	if len(hf['I']) != 4 || fmt.Sprint(binary.LittleEndian.Uint32(hf['I'])) != want["deviceid"] {
+		return bad("device id in header differs from the configuration")
+	}
 	if len(hf['X']) != 4 || len(hf['Y']) != 4 || len(hf['Z']) != 1 || len(hf['T']) != 8 || len(hf['C']) != 1 || hf['C'][0] != 0 {
 		return bad("header fields X/Y/Z/T/C missing or wrong size")
 	}
@@ -447,7 +450,7 @@ func TestVerifTW(t *testing.T) {
 		names, _ := filepath.Glob(filepath.Join(dir, "*.cptr"))
 		sort.Strings(names)
 		files := []twFile{}
-		want := map[string]string{"model": "lepton3", "brand": "flir", "device": "verif-dev", "resx": "16", "resy": "12", "fps": "9"}
+		want := map[string]string{"model": "lepton3", "brand": "flir", "device": "verif-dev", "deviceid": "5", "resx": "16", "resy": "12", "fps": "9"}
 		for _, n := range names {
 			files = append(files, twParse(n, sc.FrameSize, want))
 		}
